@@ -11,9 +11,9 @@ LINOP_ASSUME = ["bounds: atom catalogue and MaxStack/MaxLevel/MaxFlat of the the
 
 PROPS = {
     "C01": {"level": "model_checking", "engines": [LINOP, ("interp", "interp", "run"), ("conv", "conv", "run")], "rule": LINOP_RULE, "assumptions": LINOP_ASSUME, "trusted": TLC_BASE},
-    "C02": {"level": "model_checking", "engines": [LINOP, ("index_maps", "index_maps", "run")], "rule": LINOP_RULE, "assumptions": LINOP_ASSUME, "trusted": TLC_BASE},
+    "C02": {"level": "model_checking", "engines": [LINOP, ("index_maps", "index_maps", "run"), ("prox", "prox", "run"), ("nufft", "nufft", "run")], "rule": LINOP_RULE, "assumptions": LINOP_ASSUME, "trusted": TLC_BASE},
     "C03": {"level": "model_checking", "engines": [LINOP], "rule": LINOP_RULE, "assumptions": LINOP_ASSUME, "trusted": TLC_BASE},
-    "C04": {"level": "model_checking", "engines": [LINOP, ("interp", "interp", "run")], "rule": LINOP_RULE, "assumptions": LINOP_ASSUME, "trusted": TLC_BASE},
+    "C04": {"level": "model_checking", "engines": [LINOP, ("interp", "interp", "run"), ("nufft", "nufft", "run")], "rule": LINOP_RULE, "assumptions": LINOP_ASSUME, "trusted": TLC_BASE},
     "C15": {"level": "model_checking", "engines": [("alg_protocol", "alg_protocol", "run"), ("cg", "cg", "run"), ("descent", "descent", "run")],
             "rule": "one case per Alg object observed through the trace hooks (driven along TLC-generated call sequences, inner solvers, and the repository's own tests) validated by TLC against AlgLoopTrace.tla; non-trivial = the object performed at least two updates",
             "assumptions": ["protocol model checked for max_iter 0..3 (quick) / 0..4 (thorough) with up to max_iter+2 hand-driven updates", "early-stop probe compares solution arrays bitwise after one further update"],
@@ -55,6 +55,11 @@ PROPS = {
             "rule": "one case per TLC state of Conv.tla (D, data/filter extents, strides, mode, channels, batch) incl. inadmissible ones; each replayed with complex and real Gaussian-integer arrays on convolve, both adjoints and the Convolve* linops; all non-trivial",
             "assumptions": ["D=1: extents 1..4, strides 1..3, 5 channel settings, batch; D=2: extents 1..3; D=3: extents 1..2 (thorough 1..3)", "integer-valued data: comparisons are exact"],
             "trusted": TLC_BASE},
+    "C06": {"level": "exploration", "engines": [("nufft", "nufft", "run")],
+            "rule": "one measurement series per TLC state of Nufft.tla (image shape x coordinate family) with every (oversamp, width) pair: Frobenius and random-input relative error against the exact NDFT, adjoint exactness, Gram error, batch, Toeplitz normal; distinct_nontrivial counts the (shape, family) configurations",
+            "assumptions": ["coordinates are multiples of 1/8 (on-grid, half-integer, eighths, clustered with duplicates, outside by +-N and +-3N/2)", "thresholds: 3 % at (1.25, 4) and 0.3 % at (2, 4) from the property; other (oversamp, width) pairs frozen at 3x the worst case measured once on the repaired tree",
+                            "the error norm is floating point, computed by the harness: numeric clause, hence level exploration"],
+            "trusted": TLC_BASE + ["numpy.exp realisation of the exponent matrices"]},
     "C09": {
         "level": "model_checking",
         "engines": [("index_maps", "index_maps", "run")],
@@ -69,6 +74,8 @@ PROPS = {
 HOOK_COMMITS = ["609775d"]
 
 ENGINES = [
+    {"name": "nufft", "path": "harness/engines/nufft.py + spec/Nufft.tla, spec/AccuracyTrace.tla", "serves_properties": ["C06", "C04", "C02", "C01"],
+     "kind_free_text": "TLC: exact NDFT exponent matrices and periodicity laws; harness: dense probing of nufft / adjoint / NUFFT linop; TLC validates the measured defects against the thresholds held in AccuracyTrace"},
     {"name": "conv", "path": "harness/engines/conv.py + spec/Conv.tla", "serves_properties": ["C08", "C01"],
      "kind_free_text": "TLC enumeration of convolution configurations as bilinear index relations + replay of convolve, adjoints, rejection and Convolve* linops"},
     {"name": "interp", "path": "harness/engines/interp.py + spec/Interp.tla", "serves_properties": ["C07", "C01", "C04"],
@@ -127,7 +134,7 @@ MANIFEST_TEXT = {
 }
 
 NOT_APPLICABLE = {p: "check not built yet in this round (planned, see DESIGN.md section 5)" for p in
-                  ["C06", "C10", "C16", "C17", "C19"]}
+                  ["C10", "C16", "C17", "C19"]}
 
 MANIFEST_TEXT["C18"] = {
     "text": "PoissonSearch.tla models the slope bisection on a float lattice with an arbitrary (non-monotone) acceleration function; TLC checks OkIsWithinTol and the liveness property Terminates (the loop without the collapse test is kept as a negative control that must fail). poisson() is run on the real code with _poisson wrapped under a watchdog; every call (probes as slope ranks + integer facts about the mask, RNG state crc, reproducibility memo) is validated by TLC against PoissonTrace.tla.",
@@ -176,3 +183,9 @@ MANIFEST_TEXT["C08"] = {
     "design_ref": "DESIGN.md section 5 C08",
     "note": "Trusted: TLC, the harness's contraction of the relation. Extents bounded as listed in assumptions.",
     "technique": "TLA+ bilinear index relation (TLC exhaustive) + spec-to-code replay"}
+
+MANIFEST_TEXT["C06"] = {
+    "text": "Nufft.tla gives the exact non-uniform DFT for rational coordinates as matrices of integer exponents of a root of unity (no shared rounding with the implementation) and TLC checks periodicity, the centre reference and the periodicity of the oversampled coordinate map exactly. For every (shape, family) x (oversamp, width) the harness probes nufft to a dense matrix and measures Frobenius / random-input relative error, adjoint exactness, Gram error, batch and Toeplitz-normal defects; the thresholds are constants of AccuracyTrace.tla and TLC accepts or rejects each series.",
+    "design_ref": "DESIGN.md section 5 C06",
+    "note": "Accuracy is a floating-point statement: exploration level. Thresholds other than the two stated by the property are calibrated (3x measured) and frozen.",
+    "technique": "TLA+ exact exponent-matrix reference + measured-defect traces validated by TLC against spec thresholds"}
